@@ -368,3 +368,39 @@ COMMON_TRUSTED = [
     "correspondence harness (Rust crate qco_harness built against /repo's working tree with feature qco_verif, OCaml driver, Python comparison): differential testing, bounded by generator quality",
     "modelled, not verified: usize-word packing of BitWriter/BitReader/BitWords, the 6-bit-stride Huffman table and the unchecked fast decode path (contract-level model; tied by correspondence), CompressionTable::search, all f64 policy decisions and BinaryHeap order (oracle), allocation, threads, rustc",
 ]
+
+
+# ---------------------------------------------------------------- in-Coq shard (checks the extraction)
+COQ_DT = {"bool": "DBool", "i16": "DI16", "i32": "DI32", "i64": "DI64", "i128": "DI128", "u16": "DU16", "u32": "DU32",
+          "u64": "DU64", "u128": "DU128", "f32": "DF32", "f64": "DF64", "tsmicros": "DTsMicros", "tsnanos": "DTsNanos",
+          "tsmicros96": "DTsMicros96", "tsnanos96": "DTsNanos96"}
+
+
+def coq_shard_decode(tag, cases, timeout=900):
+    """cases: list of (dtype name, hex).  Evaluates Reader.decode_file inside Coq with vm_compute
+    (kernel reduction, no extraction) and returns answers in the driver's `rdec` format."""
+    os.makedirs(WORK, exist_ok=True)
+    path = os.path.join(WORK, "cases_%s.v" % tag)
+    with open(path, "w") as f:
+        f.write("From QCo.Model Require Import Base DType Codec Reader.\nFrom Coq Require Import List ZArith NArith.\nImport ListNotations.\nOpen Scope N_scope.\n")
+        for i, (dt, hx) in enumerate(cases):
+            bs = "; ".join(str(b) for b in (bytes.fromhex(hx) if hx != "-" else b""))
+            f.write("Definition c%d := decode_file %s [%s].\nEval vm_compute in (%d, c%d).\n" % (i, COQ_DT[dt], bs, i, i))
+    rc, out = sh(["coqc", "-Q", COQ, "QCo", path], cwd=WORK, timeout=timeout)
+    if rc != 0:
+        raise BuildBroken("coq-shard", out[-2000:])
+    res = {}
+    for m in re.finditer(r"=\s*\((\d+)(?:%N)?,\s*(.*?)\)\s*:\s*N \*", out, flags=re.S):
+        i = int(m.group(1))
+        body = " ".join(m.group(2).split())
+        if body.startswith("Ok"):
+            nums = re.findall(r"(-?\d+)%Z|\(\s*(-\s*\d+)\s*\)%Z", body)
+            vals = []
+            for a, b in nums:
+                vals.append(int((a or b).replace(" ", "")))
+            res[i] = "ok " + " ".join([str(len(vals))] + [str(v) for v in vals])
+        elif body.startswith("Err"):
+            res[i] = "err " + body.split()[1]
+        else:
+            res[i] = "panic model"
+    return [res.get(i, "missing") for i in range(len(cases))]
